@@ -1,5 +1,7 @@
 import NucleoVerif.Driver.Chars
 import NucleoVerif.Driver.Matcher
+import NucleoVerif.Driver.Utf32
+import NucleoVerif.Driver.Pattern
 /-! Model driver: one request per line on stdin, one answer per line on stdout.
 Answers: `ok` | `DIFF <what the model says>` | `ORACLE <violated clause>` | `bad-op`. -/
 open NucleoVerif NucleoVerif.Driver
@@ -14,6 +16,9 @@ def answer (line : String) : String :=
     | none => if model = " ".intercalate ws then "ok" else s!"DIFF {model}"
   | "M" :: _ => mLine ws
   | "X" :: _ => xLine ws
+  | "U" :: _ => uLine ws
+  | "P" :: _ => pLine ws
+  | "S" :: _ => sLine ws
   | _ => "bad-op"
 
 partial def loop (h : IO.FS.Stream) (out : IO.FS.Stream) : IO Unit := do
